@@ -1,6 +1,7 @@
 """Input pools chosen by execution coverage (not a registered check; run once, result committed under /verif/pools).
 
-  python -m engine.covpool trs  [--n 3000] [--seed 1]
+  python -m engine.covpool trs  [--n 3000] [--seed 1]      (solver targets, pools/trs_targets.json)
+  python -m engine.covpool inv  [--n 8000] [--seed 1]      (stabilizer states for inverse_circuit, pools/inv_states.json)
 
 samples labelled graphs with 5 - 7 vertices, runs the deterministic solver on each under a line tracer restricted to
 graphiq/solvers/time_reversed_solver.py, and greedily keeps every graph that executes a line-to-line transition no
@@ -58,15 +59,77 @@ def arcs_of(graph, fname):
     return seen
 
 
+def trace_call(fnames, f):
+    """line-to-line transitions executed inside the files `fnames` while f() runs"""
+    seen = set()
+    last = {}
+
+    def tracer(frame, event, arg):
+        if frame.f_code.co_filename not in fnames:
+            return None
+        if event == "call":
+            last[id(frame)] = 0
+            return tracer
+        if event == "line":
+            seen.add((frame.f_code.co_name, last.get(id(frame), 0), frame.f_lineno))
+            last[id(frame)] = frame.f_lineno
+        elif event == "return":
+            last.pop(id(frame), None)
+        return tracer
+    sys.settrace(tracer)
+    try:
+        f()
+    except Exception:
+        seen.add(("<raised>", 0, 0))
+    finally:
+        sys.settrace(None)
+    return seen
+
+
+def inv_pool(n_samples, seed):
+    """generating sets of 5 - 7 qubit stabilizer states under which inverse_circuit / clifford_from_stabilizer execute
+    transitions that are rare among random states (fallback branches of the synthesis)"""
+    sys.path.insert(0, VERIF)
+    from engine import stabgen as sg
+    import graphiq.backends.stabilizer.functions.stabilizer as fs
+    import graphiq.backends.stabilizer.functions.rep_conversion as rc
+    import graphiq.backends.stabilizer.functions.linalg as la
+    rng = random.Random(seed)
+    fnames = {fs.__file__, rc.__file__, la.__file__}
+    count, pool = {}, []
+    for i in range(n_samples):
+        n = rng.choice([5, 6, 6, 7])
+        rows = sg.random_state_rows(rng, n)
+        st = sg.stabilizer_tableau(rows)
+
+        def call():
+            fs.inverse_circuit(st.copy())
+            rc.clifford_from_stabilizer(st.copy())
+        arcs = trace_call(fnames, call)
+        rare = [x for x in arcs if count.get(x, 0) < 4]
+        if rare:
+            pool.append({"n": n, "rows": rows,
+                         "new_transitions": sorted(f"{f}:{p}->{q}" for f, p, q in rare if count.get((f, p, q), 0) == 0)})
+        for x in arcs:
+            count[x] = count.get(x, 0) + 1
+    rare_arcs = {f"{f}:{p}->{q}": c for (f, p, q), c in count.items() if c <= max(10, n_samples // 400)}
+    out = {"how": f"python -m engine.covpool inv --n {n_samples} --seed {seed}", "sampled": n_samples,
+           "transitions_seen": len(count), "rarely_executed": rare_arcs, "states": pool}
+    json.dump(out, open(os.path.join(VERIF, "pools", "inv_states.json"), "w"), indent=1)
+    print(len(pool), "states kept;", len(count), "transitions;", len(rare_arcs), "executed <= 10 times")
+
+
 def main():
     import networkx as nx
     import graphiq.solvers.time_reversed_solver as trs
     ap = argparse.ArgumentParser()
-    ap.add_argument("which", choices=["trs"])
+    ap.add_argument("which", choices=["trs", "inv"])
     ap.add_argument("--n", type=int, default=3000)
     ap.add_argument("--seed", type=int, default=1)
     a = ap.parse_args()
     warnings.simplefilter("ignore")
+    if a.which == "inv":
+        return inv_pool(a.n, a.seed)
     rng = random.Random(a.seed)
     fname = trs.__file__
     count, pool = {}, []
@@ -82,7 +145,7 @@ def main():
                          "new_transitions": sorted(f"{f}:{p}->{q}" for f, p, q in rare if count.get((f, p, q), 0) == 0)})
         for x in arcs:
             count[x] = count.get(x, 0) + 1
-    rare_arcs = {f"{f}:{p}->{q}": c for (f, p, q), c in count.items() if c <= 10}
+    rare_arcs = {f"{f}:{p}->{q}": c for (f, p, q), c in count.items() if c <= max(10, a.n // 400)}
     out = {"how": f"python -m engine.covpool trs --n {a.n} --seed {a.seed} (repo HEAD at the time: see git log)",
            "sampled": a.n, "transitions_seen": len(count), "rarely_executed": rare_arcs, "graphs": pool}
     os.makedirs(os.path.join(VERIF, "pools"), exist_ok=True)
